@@ -2,7 +2,24 @@
 
 EXPL = "Generated-input search: held on every generated case of this run (counts, class histogram and samples in the evidence file); no claim beyond the explored bounds."
 
+PROG = "Hypothesis-generated DAG programs (programs as JSON data, ~60 ops, shapes incl. 0/1-length axes, 7 dtypes, 5 chunking families)"
+
 CLAIMED = {
+    "C01": {
+        "text": PROG + " evaluated by a NumPy twin interpreter and by dask_array; values, shape and dtype compared. " + EXPL,
+        "note": "NumPy is the reference model; statements NumPy rejects or warns about are not generated; regions of listed open known findings are excluded by construction and counted; float comparison within 256 eps of the coarsest float dtype times the largest magnitude in the program.",
+        "technique": "property-based testing: random programs vs NumPy reference model (differential)",
+    },
+    "C03": {
+        "text": PROG + "; every variable's graph is executed by the harness' own executor and every block of the advertised grid is compared with .chunks, result shape/dtype with the advertised ones, optimize-graph on and off. " + EXPL,
+        "note": "Trusts the harness executor (dask._task_spec tasks called with their dependency values); unknown (NaN) sizes only checked for block count.",
+        "technique": "property-based testing: random programs, validity predicate over every produced block",
+    },
+    "C04": {
+        "text": PROG + "; for every variable (and its .optimize()/.persist() results) the key grid, key presence, dependency closure, acyclicity (Kahn) and name stability are checked, optimize-graph on and off. " + EXPL,
+        "note": "Dependencies are those dask._task_spec reports after convert_legacy_graph.",
+        "technique": "property-based testing: random programs, validity predicate over the task graph",
+    },
     "C13": {
         "text": "Exhaustive enumeration of all slices/ints/chunk compositions for n<=5 (quick) / n<=7 (thorough) plus Hypothesis-drawn larger axes, each helper compared with brute force on range(n). " + EXPL,
         "note": "Trusts Python's own slice semantics on list(range(n)) as the reference; helper input domains are those of the callers (normalised indices; unit-step slices for _compose_slices/_compute_sliced_chunks).",
